@@ -765,7 +765,7 @@ fn dump<'tcx>(tcx: TyCtxt<'tcx>, out_dir: &str) {
         if matches!(kind, DefKind::Ctor(..)) {
             continue;
         }
-        let (steal, _promoted) = tcx.mir_promoted(ldid);
+        let (steal, promoted) = tcx.mir_promoted(ldid);
         if steal.is_stolen() {
             stolen.push(J::S(cx.key(ldid.to_def_id())));
             continue;
@@ -773,6 +773,26 @@ fn dump<'tcx>(tcx: TyCtxt<'tcx>, out_dir: &str) {
         let body = steal.borrow();
         let j = cx.body(ldid, &body);
         bodies.push(j);
+        if !promoted.is_stolen() {
+            let proms = promoted.borrow();
+            for (pi, pbody) in proms.iter_enumerated() {
+                let mut j = cx.body(ldid, pbody);
+                if let J::O(ref mut fields) = j {
+                    let base = cx.key(ldid.to_def_id());
+                    for f in fields.iter_mut() {
+                        if f.0 == "key" {
+                            f.1 = J::S(format!("{}::{{promoted#{}}}", base, pi.index()));
+                        } else if f.0 == "kind" {
+                            f.1 = J::s("Promoted");
+                        } else if f.0 == "parent" {
+                            f.1 = J::S(base.clone());
+                        }
+                    }
+                    fields.retain(|f| f.0 != "coroutine");
+                }
+                bodies.push(j);
+            }
+        }
     }
 
     // ---- type tables
